@@ -660,6 +660,10 @@ Error RALocalAllocator::alloc_instruction(InstNode* node) noexcept {
         if (!tied_reg->has_use_id()) {
           // DECIDE where to assign the USE register.
           RegMask allocable_regs = tied_reg->use_reg_mask() & ~(will_free | will_use);
+          if (ASMJIT_UNLIKELY(!allocable_regs)) {
+            return make_error(Error::kNoMorePhysRegs);
+          }
+
           uint32_t use_id = decide_on_assignment(group, work_reg, assigned_id, allocable_regs);
 
           RegMask use_mask = Support::bit_mask<RegMask>(use_id);
@@ -1021,6 +1025,9 @@ Error RALocalAllocator::alloc_instruction(InstNode* node) noexcept {
         uint32_t phys_id = tied_reg->out_id();
         if (phys_id == RAAssignment::kPhysNone) {
           RegMask allocable_regs = tied_reg->out_reg_mask() & ~(out_regs | avoid_out);
+          if (ASMJIT_UNLIKELY(!allocable_regs)) {
+            return make_error(Error::kNoMorePhysRegs);
+          }
 
           if (!(allocable_regs & ~live_regs)) {
             // There are no more registers, decide which one to spill.
